@@ -270,11 +270,13 @@ class Command:
     def has_arguments(self) -> bool:
         return len(self.args_definition) != 0
 
-    def reassign_arguments(self):
+    def reassign_arguments(self) -> bool:
         """Reassign arguments to proper slots.
 
         Should be called when parsing of commands with non
         deterministic arguments is considered done.
+
+        :return: True if something was reassigned, False otherwise
         """
         raise NotImplementedError
 
@@ -921,7 +923,7 @@ class HasflagCommand(TestCommand):
     extension = "imap4flags"
     non_deterministic_args = True
 
-    def reassign_arguments(self):
+    def reassign_arguments(self) -> bool:
         """Deal with optional stringlist before a required one."""
         condition = (
             "variable-list" in self.arguments and "list-of-flags" not in self.arguments
@@ -929,6 +931,7 @@ class HasflagCommand(TestCommand):
         if condition:
             self.arguments["list-of-flags"] = self.arguments.pop("variable-list")
             self.rargs_cnt = 1
+        return condition
 
 
 class DateCommand(TestCommand):
